@@ -17,7 +17,7 @@ Letters ==
     \* of the table: nothing may be translated through it)
     \cup {L("set_vring_addr", q, 2, {}, "", 0) : q \in {0, 1}}
     \cup {L("set_features", 0, 0, b, "", 0) : b \in {{}, {29}, {30}, {29, 30}, {0, 26, 29, 30, 32}, {1}, {29, 31}}}
-    \cup {L("set_protocol_features", 0, 0, b, "", 0) : b \in SUBSET {3, 18, 21}}
+    \cup {L("set_protocol_features", 0, 0, b, "", 0) : b \in SUBSET {1, 3, 18, 21}}
     \cup {L("brfd", 0, 0, {}, "", 0)}
     \cup {L("set_vring_call", q, 0, {}, fd, 0) : q \in {0, 1, 2}, fd \in {"new", "none"}}
     \cup {L("use_ring", q, 0, {}, "", 0) : q \in Rings}
